@@ -35,7 +35,12 @@ impl BlobWriter {
         Ok(())
     }
 
-    pub(crate) fn write_record(&mut self, record: Record) -> AnyResult<()> {
+    pub(crate) fn write_record(&mut self, mut record: Record) -> AnyResult<()> {
+        // Position of the record in the output can differ from its position in the source blob
+        // (records skipped during recovery): header must contain the actual offset
+        if record.header.blob_offset() != self.written {
+            record.header = record.header.with_blob_offset(self.written)?;
+        }
         bincode::serialize_into(&mut self.file, &record.header).with_context(|| "write header")?;
         let mut written = 0;
         written += bincode::serialized_size(&record.header)?;
